@@ -302,7 +302,10 @@ class IMAPClientProxy:
                         await self.push(f"{imap_cmd.tag} BAD {e}\r\n")
                     else:
                         await self.push(f"* BAD {e}\r\n")
-                    return
+                    # The client has been told. A command that does not
+                    # parse is no reason to drop the connection.
+                    #
+                    continue
 
                 # Pass the command on to the command processor to handle.
                 #
